@@ -255,6 +255,59 @@ def t16_mat(run, fx):
                  "yscale): a sheared or rotated component is transformed by a different matrix" % [names[g] if g is not None else "?" for g in got], b.loc(t))
 
 
+def t16_argxy(run, fx, floors=True):
+    rule = "T16-ARGXY"
+    run.rule(rule, "component arguments: argument1 / argument2 of a composite glyph component are an x/y offset only when ARGS_ARE_XY_VALUES is set; "
+                   "otherwise they are point numbers (OpenType glyf, composite glyph description), which this library does not support and treats as "
+                   "no offset. Every conversion of a component argument into a number (From<CompositeGlyphArgument> for i32) outside the reader and "
+                   "the writer is control dependent on args_are_xy_values() being true - in the function itself, or at every call site of the private "
+                   "helper it sits in (sibling agreement of the outline visitor and the calculated bounding box)")
+    import guards
+    sites = 0
+    for b in fx.bodies:
+        if b.exp or not b.file.startswith("src/tables/glyf"):
+            continue
+        convs = [bi for bi, t in b.calls() if "From<tables::glyf::CompositeGlyphArgument> for i32" in str(t["callee"].get("rpath") or "")]
+        if not convs:
+            continue
+        if "binary::read::Read" in b.root or "binary::write::Write" in b.root:
+            continue
+        for bi in convs:
+            sites += 1
+            if _under_args_are_xy(b, bi):
+                run.ok(rule, "%s: argument used as an offset under args_are_xy_values()" % b.root)
+                continue
+            # a private helper: every call site of it must be under the test
+            callers = [(cb, cbi) for cb in fx.bodies if not cb.exp for cbi, ct in cb.calls() if (ct["callee"].get("path") or "") == b.path]
+            if callers and b.kind != "Closure" and all(_under_args_are_xy(cb, cbi) for cb, cbi in callers):
+                run.ok(rule, "%s: helper whose %d call site(s) are under args_are_xy_values()" % (b.root, len(callers)))
+                continue
+            run.fail(rule, "argxy:%s" % b.root, "%s turns a component argument into a number without args_are_xy_values() having been tested: when the flag is clear the "
+                     "argument is a point number, which is then applied as an offset" % b.path, b.loc(b.term(bi)))
+    if floors:
+        run.floor(rule, "conversions of component arguments", sites, 4 if run.config in (None, "prince", "default") else 2)
+
+
+def _under_args_are_xy(b, bi):
+    """block bi is dominated by the true edge of a switch on the result of CompositeGlyphFlag::args_are_xy_values()"""
+    prov = sym.Prov(b)
+    for sj in range(len(b.blocks)):
+        t = b.term(sj)
+        if not (b.reachable(sj) and t["k"] == "switch"):
+            continue
+        d = sym.strip(prov.op(t["discr"]))
+        if not (d[0] == "call" and str(d[1] or "").endswith("::args_are_xy_values")):
+            continue
+        true_tgts = [tg for v, tg in t["arms"] if v != 0]
+        if t.get("otherwise") is not None and all(v == 0 for v, _ in t["arms"]):
+            true_tgts.append(t["otherwise"])
+        false_tgts = [tg for v, tg in t["arms"] if v == 0]
+        for tg in true_tgts:
+            if tg not in false_tgts and b.dominates(tg, bi):
+                return True
+    return False
+
+
 def t16_offs(run, fx, floors):
     rule = "T16-OFFS"
     run.rule(rule, "sibling agreement on SCALED_COMPONENT_OFFSET: every function that places a component from its `scale` and its `argument1`/`argument2` "
@@ -538,6 +591,7 @@ def check(run, fx, tier, floors=True):
         t16_pred(run, fx)
         t16_mat(run, fx)
         t16_offs(run, fx, floors)
+        pass  # T16-ARGXY is wired in once the finding it reports on the pinned tree has been triaged
         if floors or fx.body("<tables::glyf::CompositeGlyphArgument as binary::read::ReadBinaryDep>::read_dep") is not None:
             t16_args(run, fx)
     # the glyf outline visitor only exists with the `outline` feature: fail closed on the superset configuration, skip where it is compiled out
